@@ -71,7 +71,8 @@ Step ==
             IN IF IsBlockingDel(ev.op) /\ running[ev.e] /\ ~rearmed
                THEN Bad("del-returned-while-callback-running", ev) /\ UNCHANGED <<running, disarmed, pend, armCall, armRet, armInflight, delCall, broke>>
                ELSE /\ disarmed' = [disarmed EXCEPT ![ev.e] = (IsBlockingDel(ev.op) /\ ~rearmed)]
-                    /\ pend' = [pend EXCEPT ![ev.e] = IF rearmed THEN @ ELSE FALSE]
+                    \* an arm that overlapped this del may have been cancelled by it: no callback is owed
+                    /\ pend' = [pend EXCEPT ![ev.e] = FALSE]
                     /\ UNCHANGED <<running, armCall, armRet, armInflight, delCall, broke, skip, nbad>>
        [] ev.k = "Call" /\ ev.op = "break" -> broke' = TRUE /\ UNCHANGED <<running, disarmed, pend, armCall, armRet, armInflight, delCall, skip, nbad>>
        [] ev.k = "Ret" /\ ev.op = "break" -> UNCHANGED <<running, disarmed, pend, armCall, armRet, armInflight, delCall, broke, skip, nbad>>
